@@ -58,11 +58,14 @@ def vd(t, n):
 
 
 class Stack:
-    def __init__(self, layers):
+    def __init__(self, layers, cfgvar=0):
         self.layers = layers
+        self.cfgvar = cfgvar
         self.ok = self.resolve()
         if self.ok:
             self.assign_configs()
+            if cfgvar:
+                self.special_configs(cfgvar)
 
     # ---------------------------------------------------------------- kinds
     def resolve(self):
@@ -208,6 +211,39 @@ class Stack:
             else:
                 L.cfg = {}
 
+    def special_configs(self, var):
+        """IO-only configuration alphabets (no lookups are performed on such fields): signed zeros, infinities, NaN,
+        denormals and type extremes in every configuration blob (var 1), degenerate 1-cell extents (var 2)."""
+        inf, nan = float("inf"), float("nan")
+        for idx, L in enumerate(self.layers):
+            k, kd = L.k, L.kind
+            if var == 1:
+                if kd in ("clamp", "backup"):
+                    if is_real(k.in_t):
+                        L.cfg["min"] = [[-0.0, -inf, 5e-324 if k.in_t == "double" else 1e-45, -1.5][(idx + a) % 4] for a in range(k.n)]
+                        L.cfg["max"] = [[inf, 0.0, 3.0e38, 2.5][(idx + a) % 4] for a in range(k.n)]
+                    else:
+                        top = {"std::size_t": 2**64 - 1, "unsigned": 2**32 - 1, "int": 2**31 - 1, "long": 2**63 - 1}[k.in_t]
+                        L.cfg["min"] = [[0, 1, top - 1][(idx + a) % 3] for a in range(k.n)]
+                        L.cfg["max"] = [[top, 0, 7][(idx + a) % 3] for a in range(k.n)]
+                    if kd == "backup":
+                        L.cfg["default"] = [[nan, -0.0, inf, -inf, 1e-45, -3.0e38][(idx + j) % 6] if is_real(k.out_t) else (idx + j) for j in range(k.m)]
+                elif kd == "affine":
+                    n = k.n
+                    pool = [-0.0, inf, 1e-45, -3.0e38, nan, 1.0, 0.1, -inf]
+                    L.cfg["A"] = [[pool[(idx + i * (n + 1) + j) % len(pool)] for j in range(n + 1)] for i in range(n)]
+                elif kd == "constant":
+                    pool = [-0.0, nan, inf, 1e-45, -3.0e38, 0.1]
+                    if is_real(k.out_t):
+                        L.cfg["value"] = [pool[(idx + j) % len(pool)] for j in range(k.m)]
+            elif var == 2:
+                if kd in Layer.STORAGE:
+                    L.cfg["sizes"] = [1 for _ in range(k.n)]
+                elif kd in ("array", "probe_array"):
+                    above = self.layers[idx - 1] if idx > 0 else None
+                    if above is not None and above.kind in Layer.STORAGE:
+                        L.cfg["size"] = 1
+
     def depth(self):
         return len(self.layers)
 
@@ -256,12 +292,20 @@ class Stack:
 
 
 def lit(t, v):
-    if t == "float":
-        return repr(float(v)) + "f"
-    if t == "double":
-        return repr(float(v))
+    if t in ("float", "double"):
+        import math
+        v = float(v)
+        if math.isnan(v):
+            return "std::numeric_limits<%s>::quiet_NaN()" % t
+        if math.isinf(v):
+            return "%sstd::numeric_limits<%s>::infinity()" % ("-" if v < 0 else "", t)
+        if v != 0 and abs(v) < 1e-40:
+            return "%sstd::numeric_limits<%s>::denorm_min()" % ("-" if v < 0 else "", t)
+        return "(" + repr(v) + ("f)" if t == "float" else ")")
     if t == "std::size_t":
         return "%dul" % int(v)
+    if t == "long" and int(v) == 2**63 - 1:
+        return "std::numeric_limits<long>::max()"
     if t == "unsigned":
         return "%du" % int(v)
     if t == "long":
@@ -340,6 +384,38 @@ def wrappers(kind_below, level, n, variant=0, stype="float"):
 
 def clone(layers):
     return [Layer(L.kind, **dict(L.p)) for L in layers]
+
+
+def with_cfgvar(stack, var):
+    return Stack(clone(stack.layers), cfgvar=var)
+
+
+# ---------------------------------------------------------------------------
+# on-disk format description of a stack (for include/vp/format.hpp)
+TAGS = {"array": 0xAB010000, "constant": 0xAB010001, "identity": 0xAB010002, "affine": 0xAB020000, "backup": 0xAB020001, "clamp": 0xAB020002,
+        "hilbert": 0xAB020004, "morton_bmi": 0xAB020006, "morton_port": 0xAB020006, "strided": 0xAB020010}
+
+
+def format_cpp(stack, varname):
+    rows = []
+    for L in stack.layers:
+        k, kd = L.k, L.kind
+        tag = TAGS.get(kd, 0)
+        cfgb, isarr, m = 0, 0, 0
+        if kd == "array":
+            isarr, m = 1, k.m
+        elif kd == "constant":
+            cfgb = SIZEOF[k.out_t] * k.m
+        elif kd in Layer.STORAGE:
+            cfgb = 8 * k.n
+        elif kd == "clamp":
+            cfgb = 2 * k.n * SIZEOF[k.in_t]
+        elif kd == "backup":
+            cfgb = 2 * k.n * SIZEOF[k.in_t] + k.m * SIZEOF[k.out_t]
+        elif kd == "affine":
+            cfgb = k.n * (k.n + 1) * SIZEOF[k.in_t]
+        rows.append("{0x%08Xu, %d, %d, %d}" % (tag, cfgb, isarr, m))
+    return "static const vp::FLayer %s[] = {%s};" % (varname, ", ".join(rows))
 
 
 def enumerate_stacks(n, m, maxdepth, itype="std::size_t", rtype="float", stype="float", harness=True, bmi=True, variant=0):
@@ -445,3 +521,48 @@ def view_layout(stack, upto=0):
 
 def view_fits(stack):
     return view_layout(stack)[0] <= 256
+
+
+# ---------------------------------------------------------------------------
+# runtime description for the reference interpreter (include/vp/interp.hpp)
+
+LK = {"array": "LK_ARRAY", "probe_array": "LK_ARRAY", "constant": "LK_CONSTANT", "identity": "LK_IDENTITY", "probe_fn": "LK_PROBE_FN",
+      "strided": "LK_STRIDED", "morton_bmi": "LK_MORTON", "morton_port": "LK_MORTON", "hilbert": "LK_HILBERT", "clamp": "LK_CLAMP",
+      "backup": "LK_BACKUP", "shuffle": "LK_SHUFFLE", "dereference": "LK_DEREF", "cast": "LK_CAST", "affine": "LK_AFFINE", "nn": "LK_NN",
+      "linear": "LK_LINEAR"}
+STN = {"float": "ST_FLOAT", "double": "ST_DOUBLE", "std::size_t": "ST_SIZE", "unsigned": "ST_UNSIGNED", "int": "ST_INT", "long": "ST_LONG"}
+
+
+def desc_cpp(stack, varname):
+    rows = []
+    for L in stack.layers:
+        k, kd = L.k, L.kind
+        cfg = []
+        if kd == "clamp":
+            cfg = L.cfg["min"] + L.cfg["max"]
+        elif kd == "backup":
+            cfg = L.cfg["min"] + L.cfg["max"] + L.cfg["default"]
+        elif kd == "affine":
+            cfg = [x for row in L.cfg["A"] for x in row]
+        elif kd in Layer.STORAGE:
+            cfg = L.cfg["sizes"]
+        elif kd == "constant":
+            cfg = L.cfg["value"]
+        elif kd == "probe_fn":
+            cfg = [L.cfg["salt"]]
+        elif kd == "shuffle":
+            cfg = L.p["perm"]
+        rows.append("{vp::%s, %d, %d, vp::%s, vp::%s, {%s}}" % (LK[kd], k.n, k.m, STN[k.in_t], STN[k.out_t], ", ".join(repr(float(x)) for x in cfg) if cfg else "0"))
+    return "static const vp::LDesc %s[] = {%s};" % (varname, ",\n    ".join(rows))
+
+
+def fill_cpp(stack, fieldvar):
+    """C++ statements that fill every array / probe_array of the stack with the interpreter's model function."""
+    out = []
+    for idx, L in enumerate(stack.layers):
+        if L.kind in Layer.STORAGE and stack.layers[idx + 1].kind in ("array", "probe_array"):
+            chain = fieldvar + ".backend()" + ".get_backend()" * idx
+            sizes = ", ".join(repr(float(s)) for s in L.cfg["sizes"])
+            out.append("{ static const double sz[] = {%s}; vp::fill_model<typename %s::non_owning_data_t, %d, %d, %s>(typename %s::non_owning_data_t(%s), sz); }" % (
+                sizes, stack.cpp_type(idx), L.k.n, L.k.m, L.k.in_t, stack.cpp_type(idx), chain))
+    return "\n  ".join(out)
